@@ -37,6 +37,7 @@ theorem unseal_check_order : Gen.Sealer.unsealErrors =
      "bad request: exp is invalid",
      "internal error: error making aes cipher with key: %w",
      "internal error: error making gcm mode opener with key: %w",
+     "bad request: nonce has an invalid length",
      "bad request: error parsing req as base64 URL encoded: %w",
      "bad request: error opening sealed url: %w",
      "bad request: error parsing unsealed request uri: %w",
@@ -46,7 +47,7 @@ theorem unseal_conds : Gen.Sealer.unsealConds =
     ["!strings.HasPrefix(u.Path, \"/single_symmetric_key_sealed_request/\")", "!q.Has(\"nbf\")", "!q.Has(\"exp\")",
      "!q.Has(\"nonce\")", "!q.Has(\"req\")", "err != nil", "err != nil", "err != nil",
      "time.Now().Before(time.UnixMilli(nbf))", "time.Now().After(time.UnixMilli(exp))",
-     "err != nil", "err != nil", "err != nil", "err != nil", "err != nil",
+     "err != nil", "err != nil", "len(nonce) != aesgcm.NonceSize()", "err != nil", "err != nil", "err != nil",
      "strings.TrimPrefix(u.Path, \"/single_symmetric_key_sealed_request/\") != requestURL.EscapedPath()"] := by decide
 theorem unseal_result : Gen.Sealer.unsealResult = ["ret.Path = requestURL.Path", "ret.RawQuery = requestURL.RawQuery"] := by decide
 
